@@ -58,7 +58,21 @@ def check_finite_inputs(res):
 
 
 def check_overflow(res, limit=1e100):
-    """float overflow through explosive feedback is outside every property's domain (magnitudes up to 1e12 are generated)"""
+    """float overflow through explosive feedback is outside every property's domain (magnitudes up to 1e12 are generated);
+    so is a parameter that is NaN while every stock is still finite (a function such as sqrt of a negative value: C06 decides parameters)"""
+    T = len(res.t)
+    first_bad_stock = T
+    for pop, c in all_comps(res):
+        v = np.asarray(c.vals, dtype=float)
+        bad = np.nonzero(~np.isfinite(v))[0]
+        if bad.size:
+            first_bad_stock = min(first_bad_stock, int(bad[0]))
+    for pop in res.model.pops:
+        for par in pop.pars:
+            pv = np.asarray(par.vals, dtype=float)
+            bad = np.nonzero(np.isnan(pv))[0]
+            if bad.size and int(bad[0]) <= first_bad_stock and (par.links or getattr(par, "_is_dynamic", False)):
+                raise Discard("a parameter is NaN while all stocks are still finite (function outside its domain; parameters are decided by C06)")
     for pop, c in all_comps(res):
         v = np.asarray(c.vals, dtype=float)
         with np.errstate(invalid="ignore"):
